@@ -1397,3 +1397,69 @@ def compare_exist(model_line, gen_line, trace):
             if not (gen == spec == impl):
                 out.append(f'existence test: implementation refuses={impl}, regenerated Lean {gen}, reference definition {spec}')
     return out
+
+
+# ------------------------------------------------------------------------------------------------ the conversion route to a writer
+
+def converter_existence(scratch):
+    """The public conversion route (sarpy.io.complex.converter.Converter / conversion_utility) builds the target path from
+    output_directory + output_file and hands it to a SICD / SIO writer: the existence clause of the property holds for this route as for the
+    writers themselves - an existing target is refused (SarpyIOError) and left byte-identical unless the caller passed check_existence=False.
+    The process working directory is elsewhere, as it is for any caller that passes a directory.
+    -> (failures, number of cases)"""
+    import sargen
+    from sarpy.io.complex.base import FlatSICDReader
+    from sarpy.io.complex.converter import Converter, conversion_utility
+    fails, n = [], 0
+    rows, cols = 9, 7
+    data = (numpy.arange(rows * cols, dtype='float32').reshape((rows, cols)) + 1j).astype('complex64')
+    old_cwd = os.getcwd()
+    elsewhere = tempfile.mkdtemp(dir=scratch)
+    try:
+        os.chdir(elsewhere)
+        for route in ('Converter', 'conversion_utility'):
+            for fmt in ('SICD', 'SIO'):
+                for pre in 'af':
+                    for check in (None, False, True):
+                        n += 1
+                        outdir = tempfile.mkdtemp(dir=scratch)
+                        name = 'out.' + ('nitf' if fmt == 'SICD' else 'sio')
+                        path = os.path.join(outdir, name)
+                        content = b'PREEXISTING' * 300
+                        if pre == 'f':
+                            with _real_open(path, 'wb') as f:
+                                f.write(content)
+                        reader = FlatSICDReader(sargen.small_sicd(rows, cols), data)
+                        kw = {} if check is None else {'check_existence': check}
+                        what = (f"{route}(output_directory, output_file, output_format={fmt!r}) with {'an existing file' if pre == 'f' else 'nothing'} at the target, "
+                                f"check_existence {'not given' if check is None else check}")
+                        case = {'machine': 'E', 'kind': 'CONV:' + route + ':' + fmt, 'pre': pre, 'check': {None: 'n', False: '0', True: '1'}[check], 'ops': []}
+                        must_refuse = pre == 'f' and check is not False
+
+                        def go():
+                            if route == 'Converter':
+                                cv = Converter(reader, outdir, output_file=name, output_format=fmt, **kw)     # the writer opens its target here
+                                cv.__exit__(None, None, None)
+                            else:
+                                conversion_utility(reader, outdir, output_files=name, output_format=fmt, **kw)
+                        out, ecls, _ = call(go)
+                        intact = pre == 'f' and os.path.isfile(path) and _real_open(path, 'rb').read() == content
+                        if must_refuse:
+                            if out == 'ok' or not intact:
+                                fails.append({'key': '', 'step': 0, 'case': case,
+                                              'msg': f'{what}: the existing target was ' + ('accepted and overwritten' if not intact else 'accepted') +
+                                                     ' - the caller did not disable the existence check'})
+                            elif ecls != 'SarpyIOError':
+                                fails.append({'key': '', 'step': 0, 'case': case, 'msg': f'{what}: raised {ecls} instead of refusing with SarpyIOError'})
+                        elif out != 'ok' and ecls == 'SarpyIOError':
+                            fails.append({'key': '', 'step': 0, 'case': case,
+                                          'msg': f'{what}: refused (SarpyIOError) although ' + ('nothing exists there' if pre == 'a' else 'the caller disabled the check')})
+                        # (whether the conversion itself succeeds is not part of this clause: Converter(output_format='SIO').write_data() raises
+                        # AttributeError on the unchanged tree - SIOWriter has no sicd_meta - which no property of this list is about)
+                        try:
+                            reader.close()
+                        except Exception:
+                            pass
+    finally:
+        os.chdir(old_cwd)
+    return fails, n
